@@ -59,7 +59,7 @@ def step (st : St) (line : String) : St × Option String :=
   | [] => (st, none)
   | _ => (st, some "bad-op")
 
-def main (lines : Array String) : IO Unit := do
+def main (lines : Array String) (_args : List String) : IO Unit := do
   let mut st : St := {}
   for line in lines do
     let (st', out) := step st line
